@@ -137,7 +137,7 @@ impl WorldCfg {
 }
 
 const UIST_SYMS: &[&str] = &["ABC", "BCD", "XYZ", "Q", "ÜNI✓", "a b", "LONGSYMBOL_0123456789"];
-const JURA_SYMS: &[&str] = &["0", "1", "2", "7", "42", "1000000"];
+const JURA_SYMS: &[&str] = &["0", "1", "2", "7", "42", "1000000", "01", "007"];
 
 #[derive(Clone, Debug, Default)]
 pub struct WorldStats {
